@@ -14,12 +14,12 @@ CONSTANTS MaxEvents, MaxMeasures, Durs
 Pitches == {<<"C", 0, 4>>, <<"D", 1, 4>>}
 
 VARIABLES n, inMeasure
-mvars == <<pos, divs, mstart, maxpos, lastOn, open, notes, measures, attrs, bad, n, inMeasure>>
+mvars == <<pos, divs, mstart, maxpos, lastOn, open, notes, measures, attrs, ropen, rclosed, bad, n, inMeasure>>
 
 E(kind) == [ev |-> kind]
 NoteEv(d, chord, grace, rest, p, ts, te) ==
    [ev |-> "note", id |-> "x", dur |-> d, chord |-> chord, grace |-> grace, rest |-> rest, step |-> p[1], alter |-> p[2], octave |-> p[3],
-    voice |-> 1, staff |-> 1, tie_stop |-> ts, tie_start |-> te, type |-> "", dots |-> 0]
+    voice |-> 1, staff |-> 1, tie_stop |-> ts, tie_start |-> te, type |-> "", dots |-> 0, ranges |-> <<>>]
 MInit == SInit /\ n = 0 /\ inMeasure = FALSE
 Count == n' = n + 1
 MStart == /\ ~inMeasure /\ Len(measures) < MaxMeasures
